@@ -21,13 +21,13 @@ CHUNK = 48
 STUBS = ["asyncio.open_connection -> FakeNet (refuses until attempt a, then accepts after a symbolic latency)",
          "writer.drain() returns at once, or (back-pressure instances) suspends for a symbolic delay",
          "loop -> VLoop (virtual time, symbolic instants)"]
-OUTSIDE = ["more than 3 (quick) / 4 (thorough) sends with pairwise-symbolic timing", "write faults and resets (C02, C07)",
+OUTSIDE = ["more than 3 (quick) / 5 (thorough) sends with pairwise-symbolic timing", "write faults and resets (C02, C07)",
            "1..10 pending at a time is C16's inductive step", "instants beyond 7 s, lifetimes beyond 6 s", "back-pressure instances: a send at exactly the instant the connection completes"]
 ASSUMPTIONS = ["packet counter: the inductive step sets the factory's counter attribute directly (guarded: missing attribute -> inconclusive)"]
 
 
 def bounds(tier):
-    return {"sends": 3 if tier == "quick" else 4, "send_instants": "[0,5] ordered, ties allowed", "lifetime": "(0,6]",
+    return {"sends": 3 if tier == "quick" else 5, "send_instants": "[0,5] ordered, ties allowed", "lifetime": "(0,6]",
             "first_accepting_attempt": [0, 1, 2], "connect_latency": "[0,1.5]", "message_kinds": "catalogue rotation, see instances"}
 
 
@@ -42,6 +42,11 @@ def instances(tier):
         for a in (0, 1, 2):
             out.append({"kind": "sends", "gen": g, "k": 2, "a": a, "cat": [3, 0], "bp": False})
         out.append({"kind": "sends", "gen": g, "k": k, "a": 1, "cat": [3, 17, 0, 5][:k], "bp": False})
+        if tier == "thorough":
+            out.append({"kind": "sends", "gen": g, "k": 5, "a": 1, "cat": [3, 17, 0, 5, 9], "bp": False})
+            out.append({"kind": "sends", "gen": g, "k": 2, "a": 2, "cat": [3, 17], "bp": True})     # (the back-pressure oracle covers two messages)
+            for anchor in ("accept", "write", "write_bp"):
+                out.append({"kind": "turns", "gen": g, "k": 2, "anchor": anchor, "span": 24})
         # the same command submitted twice (equal message objects) must go out twice
         out.append({"kind": "sends", "gen": g, "k": 2, "a": 1, "cat": [3, 3], "bp": False, "dup": True})
         out.append({"kind": "sends", "gen": g, "k": 3, "a": 1, "cat": [0, 3, 0], "bp": False, "dup": True})
